@@ -3,6 +3,7 @@ package props
 import (
 	"fmt"
 	"sort"
+	"strings"
 	"testing"
 	"time"
 
@@ -30,6 +31,12 @@ func genC14(r *rt.Rand, tier string, idx int) *world.Scenario {
 	sc.MetricsKV = r.Chance(0.2)
 	if r.Chance(0.4) {
 		sc.Inactive = swarmSites(r, "kv.get", "kv.commit")
+	}
+	if sc.Engine == "tikv" && idx%10 == 4 {
+		// a fault below the adapter: one point read of the TiKV client (the existence check of a create, the
+		// value check of an update) is answered with a key error
+		sc.Class = "competing-candidates+tikv-get-request-fault"
+		sc.Extra = map[string]int64{"tikv_get_fault": int64(1 + r.Intn(12))}
 	}
 	nc := 2 + r.Intn(2)
 	for c := 0; c < nc; c++ {
@@ -253,8 +260,8 @@ func c14Custom(t *testing.T, sc *world.Scenario, out *Outcome) {
 	for _, op := range ops {
 		in := lockIn{kind: op.kind, val: op.wrote, old: op.expected}
 		o := lockOut{ok: op.err == "", val: op.got, found: op.found}
-		if op.kind == "get" && op.err != "" && op.found {
-			continue // a read that failed after the point read (timestamp oracle): no information
+		if op.kind == "get" && op.err != "" && (op.found || !strings.Contains(op.err, "not found")) {
+			continue // a read that failed (after the point read: timestamp oracle; or in it: injected fault): no information
 		}
 		hist = append(hist, porcupine.Operation{ClientId: op.cand, Input: in, Call: int64(op.inv)*2 - 1, Output: o, Return: int64(op.ret) * 2})
 		if (op.kind == "update" || op.kind == "create") && op.err == "" {
